@@ -230,18 +230,84 @@ TypeOK == /\ cur.phase \in {"idle", "number", "bind", "run"}
           /\ results.n \in 0..MaxCalls
 
 -----------------------------------------------------------------------------
-(* ---- constant folding (compiler.py:499-503,531-534,575-578) on resolved expressions: an operator node whose
-        operands are constants becomes the constant it evaluates to; AND nodes and IN nodes are kept ---- *)
-RECURSIVE Fold(_)
-Fold(e) ==
-    CASE e.k = "bin" -> LET l == Fold(e.l) r == Fold(e.r) IN
-                        IF l.k = "c" /\ r.k = "c" THEN [k |-> "c", v |-> EvalR([k |-> "bin", op |-> e.op, l |-> l, r |-> r], <<>>)]
-                        ELSE [k |-> "bin", op |-> e.op, l |-> l, r |-> r]
-      [] e.k = "and" -> [k |-> "and", l |-> Fold(e.l), r |-> Fold(e.r)]
+(* ---- constant folding (compiler.py:499-503,531-534,575-578) on resolved expressions.
+
+   Expressions of the folding cases add the boolean connectives and NULL tests to BQLMiniSem's kinds:
+       [k |-> "or", l, r]   [k |-> "not", e]   [k |-> "isnull", e]
+   and constants of every literal kind the model has, NULL and TRUE / FALSE included.  EvalX evaluates them per row
+   (the pinned semantics, DESIGN Appendix B / C01: AND walks its operands left to right and stops at the first NULL
+   (-> NULL) or false operand (-> FALSE); OR is TRUE when some operand is true, otherwise NULL when some operand is
+   NULL, otherwise FALSE; NOT and IS NULL accept NULL: NOT NULL = TRUE).  On BQLMiniSem's kinds EvalX = EvalR.
+
+   FoldX(mode, e) is the compiler's rewriting:
+     "shipped"  an operator node (binary, NOT, IS NULL) whose operands are constants becomes the constant it
+                evaluates to; AND / OR / IN nodes are kept;
+     "full"     AND / OR nodes whose operands are all constants are folded too, by evaluating them;
+     "absorb"   "full", and a constant FALSE operand decides an AND, a constant TRUE operand decides an OR, wherever
+                it stands (the textbook short-cut -- NOT the value the row evaluation gives when a NULL stands
+                before the FALSE: kept as the deliberately broken mechanism of the non-vacuity run).
+   The property: Eval(Fold(e), row) = Eval(e, row) for every row. ---- *)
+RECURSIVE EvalX(_, _)
+EvalX(e, row) ==
+    CASE e.k = "and" ->
+           LET a == EvalX(e.l, row) IN
+           IF IsErr(a) THEN Err ELSE IF IsNull(a) THEN Null ELSE IF ~Truthy(a) THEN B(FALSE)
+           ELSE LET b == EvalX(e.r, row) IN
+                IF IsErr(b) THEN Err ELSE IF IsNull(b) THEN Null ELSE B(Truthy(b))
+      [] e.k = "or" ->
+           LET a == EvalX(e.l, row) IN
+           IF IsErr(a) THEN Err ELSE IF Truthy(a) THEN B(TRUE)
+           ELSE LET b == EvalX(e.r, row) IN
+                IF IsErr(b) THEN Err ELSE IF Truthy(b) THEN B(TRUE)
+                ELSE IF IsNull(a) \/ IsNull(b) THEN Null ELSE B(FALSE)
+      [] e.k = "not" -> LET a == EvalX(e.e, row) IN IF IsErr(a) THEN Err ELSE B(~Truthy(a))
+      [] e.k = "isnull" -> LET a == EvalX(e.e, row) IN IF IsErr(a) THEN Err ELSE B(IsNull(a))
+      [] e.k = "bin" ->
+           LET a == EvalX(e.l, row) IN
+           IF IsErr(a) THEN Err ELSE IF IsNull(a) THEN Null
+           ELSE LET b == EvalX(e.r, row) IN
+                IF IsErr(b) THEN Err ELSE IF IsNull(b) THEN Null ELSE ApplyBin(e.op, a, b)
+      [] OTHER -> EvalR(e, row)
+
+Or2(l, r) == [k |-> "or", l |-> l, r |-> r]
+NotX(e) == [k |-> "not", e |-> e]
+IsNullX(e) == [k |-> "isnull", e |-> e]
+
+IsFalseConst(x) == x.k = "c" /\ ~IsNull(x.v) /\ ~Truthy(x.v)
+IsTrueConst(x) == x.k = "c" /\ Truthy(x.v)
+
+RECURSIVE FoldX(_, _)
+FoldX(mode, e) ==
+    LET C(n) == [k |-> "c", v |-> EvalX(n, <<>>)] IN
+    CASE e.k = "bin" -> LET l == FoldX(mode, e.l) r == FoldX(mode, e.r) n == [k |-> "bin", op |-> e.op, l |-> l, r |-> r]
+                        IN IF l.k = "c" /\ r.k = "c" THEN C(n) ELSE n
+      [] e.k \in {"not", "isnull"} -> LET a == FoldX(mode, e.e) n == [k |-> e.k, e |-> a]
+                                      IN IF a.k = "c" THEN C(n) ELSE n
+      [] e.k \in {"and", "or"} ->
+           LET l == FoldX(mode, e.l) r == FoldX(mode, e.r) n == [k |-> e.k, l |-> l, r |-> r] IN
+           IF mode = "shipped" THEN n
+           ELSE IF mode = "absorb" /\ e.k = "and" /\ (IsFalseConst(l) \/ IsFalseConst(r)) THEN [k |-> "c", v |-> B(FALSE)]
+           ELSE IF mode = "absorb" /\ e.k = "or" /\ (IsTrueConst(l) \/ IsTrueConst(r)) THEN [k |-> "c", v |-> B(TRUE)]
+           ELSE IF l.k = "c" /\ r.k = "c" THEN C(n) ELSE n
       [] OTHER -> e
-RECURSIVE IsConstant(_)
-IsConstant(e) == CASE e.k = "c" -> TRUE [] e.k = "bin" -> IsConstant(e.l) /\ IsConstant(e.r) [] OTHER -> FALSE
+Fold(e) == FoldX("shipped", e)
+
+RECURSIVE IsConstant(_), IsOpConstant(_)
+IsConstant(e) == CASE e.k = "c" -> TRUE
+                   [] e.k \in {"bin", "and", "or"} -> IsConstant(e.l) /\ IsConstant(e.r)
+                   [] e.k \in {"not", "isnull"} -> IsConstant(e.e)
+                   [] OTHER -> FALSE
+(* constant and built from operators only: these the compiler as shipped reduces to one constant *)
+IsOpConstant(e) == CASE e.k = "c" -> TRUE
+                     [] e.k = "bin" -> IsOpConstant(e.l) /\ IsOpConstant(e.r)
+                     [] e.k \in {"not", "isnull"} -> IsOpConstant(e.e)
+                     [] OTHER -> FALSE
+FoldLawIn(mode, exprs, rows) ==
+    \A e \in exprs : /\ \A r \in rows : EvalX(FoldX(mode, e), r) = EvalX(e, r)
+                     /\ IsOpConstant(e) => FoldX(mode, e).k = "c"
+                     /\ (mode # "shipped" /\ IsConstant(e)) => FoldX(mode, e).k = "c"
+(* the same law for expressions of BQLMiniSem's kinds only (there EvalX = EvalR) *)
 FoldLawOn(exprs, rows) ==
     \A e \in exprs : /\ \A r \in rows : EvalR(Fold(e), r) = EvalR(e, r)
-                     /\ IsConstant(e) => Fold(e).k = "c"
+                     /\ IsOpConstant(e) => Fold(e).k = "c"
 =============================================================================
